@@ -13,7 +13,7 @@ import (
 	"golang.org/x/tools/go/ssa"
 )
 
-func init() { register("C15", false, runC15) }
+func init() { register("C15", true, runC15) }
 
 // staticClosure returns the in-module functions reachable from roots through static calls
 // (including closures, deferred and go calls).
@@ -188,6 +188,7 @@ func runC15(p *core.Prog, r *core.Result) {
 		"R15.2 Decode (and Encode) register, before doing any work, a deferred handler that recovers, accepts every error-valued panic including runtime errors, and assigns the named error result",
 		"R15.4 progress: every loop of the decoder either consumes input (and a short read panics) or is driven by a bounded induction variable; decode is not recursive",
 		"R15.5 every value the decoder can push or return is non-nil (constructors, conversions, previously pushed values, or the unpickler's result, whose in-module implementations never return nil without an error)",
+		"R15.9 a record whose stamp decodes to a well-formed but smaller or different value is not silently up to date: diffEnv reports 'unchanged' only on whole-value equality of the recorded and the current environment (shared with C01 R1.13)",
 		"R15.7 record consumers outside the recover scope (load/upToDate/diffEnv of functions and sources) contain no unguarded len(x)-k / constant index on decoded data, no unchecked type assertion, and no reachable explicit panic other than the frozen internal-invariant one",
 	}
 	r.NotDecided = []string{"memory exhaustion from declared lengths (excluded by the property)", "stack depth of starlark Hash/Equal on deeply nested decoded data", "panics inside go.starlark.net (trusted)", "32-bit platforms: int(uint32) lengths >= 2^31 (needs > 2 GiB of input; outside the property's bound)"}
@@ -315,6 +316,9 @@ func runC15(p *core.Prog, r *core.Result) {
 
 	// ---- R15.7 record consumers
 	checkRecordConsumers(p, r)
+
+	// ---- R15.9 a smaller or different decoded stamp is never "unchanged"
+	checkEnvVerdictWholeEquality(p, r, "R15.9")
 }
 
 func isReadCall(c ssa.CallInstruction) bool {
@@ -850,6 +854,12 @@ func checkRecordConsumers(p *core.Prog, r *core.Result) {
 					if lenV != nil {
 						iv = lenInterval(p, lenV, x)
 					}
+					// an item of (*starlark.Dict).Items(): a (key, value) pair - verified against the library's source
+					if k < 2 && isDictItem(x.X) {
+						nSites++
+						r.Check(dictItemsArePairs(p), "R15.7", fmt.Sprintf("%s#const-index[%d]", fname(fn), k), p.InstrPos(x), "index into an item of (*starlark.Dict).Items(), which builds every item as a two-element tuple", "index into an item of (*starlark.Dict).Items(), but the library's items() could not be confirmed to build two-element tuples only")
+						return
+					}
 					// slices freshly made with a constant length in this function are fine
 					if mk, ok := x.X.(*ssa.Slice); ok {
 						if a, ok := mk.X.(*ssa.Alloc); ok {
@@ -867,6 +877,110 @@ func checkRecordConsumers(p *core.Prog, r *core.Result) {
 		})
 	}
 	r.Floor("R15.7", nSites, 2, "crash-source sites on the record-loading path")
+}
+
+// isDictItem: v is an element of the slice returned by (*starlark.Dict).Items().
+func isDictItem(v ssa.Value) bool {
+	ld, ok := v.(*ssa.UnOp)
+	if !ok || ld.Op != token.MUL {
+		return false
+	}
+	ia, ok := ld.X.(*ssa.IndexAddr)
+	if !ok {
+		return false
+	}
+	c, ok := ia.X.(*ssa.Call)
+	return ok && core.IsMethod(c, pkgStar, "Dict", "Items")
+}
+
+// dictItemsArePairs confirms on the library source what isDictItem relies on: (*Dict).Items returns what the hash
+// table's items() builds, and every tuple built there is backed by a [2]Value array.
+func dictItemsArePairs(p *core.Prog) bool {
+	sp := p.TPkgPath(pkgStar)
+	if sp == nil || sp.Scope().Lookup("Dict") == nil {
+		return false
+	}
+	items := methodOf(p, types.NewPointer(sp.Scope().Lookup("Dict").Type()), "Items")
+	if items == nil || items.Blocks == nil {
+		return false
+	}
+	var inner *ssa.Function
+	for _, ret := range core.ReturnsOf(items) {
+		c, ok := ret.Results[0].(*ssa.Call)
+		if !ok || core.Callee(c) == nil {
+			return false
+		}
+		inner = core.Callee(c)
+	}
+	if inner == nil || inner.Blocks == nil {
+		return false
+	}
+	// every tuple appended to the result has length exactly two: a [2]Value array, or x[:2] / x[0:2]
+	pairs, other := 0, 0
+	isPair := func(v ssa.Value) bool {
+		for {
+			switch x := v.(type) {
+			case *ssa.ChangeType:
+				v = x.X
+				continue
+			case *ssa.Slice:
+				lo := int64(0)
+				if x.Low != nil {
+					k, ok := core.ConstInt(x.Low)
+					if !ok {
+						return false
+					}
+					lo = k
+				}
+				if x.High == nil {
+					if a, ok := x.X.(*ssa.Alloc); ok {
+						if at, ok := a.Type().Underlying().(*types.Pointer).Elem().Underlying().(*types.Array); ok {
+							return at.Len()-lo == 2
+						}
+					}
+					return false
+				}
+				hi, ok := core.ConstInt(x.High)
+				return ok && hi-lo == 2
+			}
+			return false
+		}
+	}
+	core.Instrs(inner, func(in ssa.Instruction) {
+		c, ok := in.(*ssa.Call)
+		if !ok {
+			return
+		}
+		if b, isB := c.Call.Value.(*ssa.Builtin); !isB || b.Name() != "append" || len(c.Call.Args) != 2 {
+			return
+		}
+		sl, ok := c.Call.Args[1].(*ssa.Slice)
+		if !ok {
+			other++
+			return
+		}
+		arr, ok := sl.X.(*ssa.Alloc)
+		if !ok {
+			other++
+			return
+		}
+		for _, ref := range *arr.Referrers() {
+			ia, ok := ref.(*ssa.IndexAddr)
+			if !ok {
+				continue
+			}
+			for _, ref2 := range *ia.Referrers() {
+				if st, ok := ref2.(*ssa.Store); ok && st.Addr == ssa.Value(ia) {
+					if isPair(st.Val) {
+						pairs++
+					} else {
+						other++
+					}
+				}
+			}
+		}
+	})
+	return pairs >= 1 && other == 0
 }
 
 func findLenOf(fn *ssa.Function, slice ssa.Value) ssa.Value {
